@@ -19,11 +19,13 @@ StateEq(o, r) ==
     /\ o.env_ok                          \* exported scalars (and only they) are in the environment, with the same value
 IsState(o) == "vars" \in DOMAIN o
 K == 1..Len(R.hist)
-\* every non-detached test case observes what the single session shows at that point
-C12ok == \A k \in K : ~R.hist[k].detached => IsState(R.obs[k]) /\ StateEq(R.obs[k], R.ref[k])
+\* every test case observes what the single session shows at that point; a detached test case, whose output scrut does not
+\* capture, writes its probe to a file (where that file did not appear the test case is not judged: IsState is false)
+Judged(k) == ~R.hist[k].detached \/ IsState(R.obs[k])
+C12ok == \A k \in K : Judged(k) => IsState(R.obs[k]) /\ StateEq(R.obs[k], R.ref[k])
 \* my model of bash agrees with bash itself (otherwise the verdict above is not trusted)
 ModelOK == \A k \in K : ~R.hist[k].detached => IsState(R.single[k]) /\ StateEq(R.single[k], R.ref[k])
-FirstBad == CHOOSE k \in K : ~R.hist[k].detached /\ ~(IsState(R.obs[k]) /\ StateEq(R.obs[k], R.ref[k]))
+FirstBad == CHOOSE k \in K : Judged(k) /\ ~(IsState(R.obs[k]) /\ StateEq(R.obs[k], R.ref[k]))
 Verdicts == (i > 0) =>
     /\ (ModelOK \/ PrintT(<<"TOOL", "model-of-bash", R.id>>))
     /\ (C12ok \/ PrintT(<<"VERDICT", "C12", R.id, FirstBad>>))
